@@ -213,3 +213,114 @@ Proof.
   split; [apply (separated_b_ok ((0, 0), (0, 1))); vm_compute; reflexivity|].
   vm_compute. reflexivity.
 Qed.
+
+(* ---- Every quintant 0..4 (Geo/ChildQuintants.v, exact rationals, axiom-free).  The outline of a cell in quintant q is
+   the image of its outline in quintant 0 under the quintant's 2x2 matrix M_q (an f64 rotation matrix: determinant
+   positive, M_q^T M_q within 1e-15 of the identity, both checked on the five matrices of the current tables).  Sign,
+   inclusion, convexity, separation and area-fraction statements transfer because every cross product of images is
+   det M_q times the original; the two metric statements (centre reach, descendant bound) transfer because the
+   quintant-0 tables hold with a factor 1.01 to spare against a stretch of at most 1 + 2e-15.  Same constants as the
+   quintant-0 theorems above; the only change is the factor det M_q in the area clause of the centre-reach theorem. ---- *)
+From A5 Require Import Geo.ChildQuintants.
+
+Theorem C12_child_overlaps_parent_q : forall (n : nat) (q o s t : Z), (0 <= q <= 4)%Z ->
+  (1 <= n <= 28)%nat -> (0 <= o < 6)%Z -> (0 <= s < 4 ^ Z.of_nat n)%Z -> (0 <= t < 4)%Z ->
+  exists lp lc w,
+    get_pentagon_vertices QInst (Z.of_nat n) q (s_to_anchor s n o) = Some lp /\
+    get_pentagon_vertices QInst (Z.of_nat (S n)) q (s_to_anchor (4 * s + t) (S n) o) = Some lc /\
+    Forall (fun c => 0 < c) (crosses QInst lp w) /\ Forall (fun c => 0 < c) (crosses QInst lc w) /\
+    contains_point QInst lp w = Some true /\ contains_point QInst lc w = Some true.
+Proof. exact child_overlaps_parent_q. Qed.
+Print Assumptions C12_child_overlaps_parent_q.
+
+Theorem C12_child_centre_reach_q : forall (n : nat) (q o s t : Z), (0 <= q <= 4)%Z ->
+  (1 <= n <= 28)%nat -> (0 <= o < 6)%Z -> (0 <= s < 4 ^ Z.of_nat n)%Z -> (0 <= t < 4)%Z ->
+  exists lp lc,
+    get_pentagon_vertices QInst (Z.of_nat n) q (s_to_anchor s n o) = Some lp /\
+    get_pentagon_vertices QInst (Z.of_nat (S n)) q (s_to_anchor (4 * s + t) (S n) o) = Some lc /\
+    get_area QInst lp / 2 == detQ (rotation QInst q) * (A_pent / inject_Z (4 ^ Z.of_nat n)) /\
+    25 * dist2 (get_center QInst lc) (get_center QInst lp) <= 16 * (get_area QInst lp / 2) /\
+    dist2 (get_center QInst lc) (get_center QInst lp) <= (R0 / pw n) * (R0 / pw n).
+Proof. exact child_centre_reach_q. Qed.
+Print Assumptions C12_child_centre_reach_q.
+
+Theorem C12_children_cover_q : forall (n : nat) (q o s : Z), (0 <= q <= 4)%Z ->
+  (1 <= n <= 28)%nat -> (0 <= o < 6)%Z -> (0 <= s < 4 ^ Z.of_nat n)%Z ->
+  exists (lp : list qp) (lc W : Z -> list qp),
+    get_pentagon_vertices QInst (Z.of_nat n) q (s_to_anchor s n o) = Some lp /\
+    (forall t, (0 <= t < 4)%Z ->
+       get_pentagon_vertices QInst (Z.of_nat (S n)) q (s_to_anchor (4 * s + t) (S n) o) = Some (lc t) /\
+       poly_in lp (W t) /\ poly_in (lc t) (W t) /\ convex_pos (W t)) /\
+    (forall t1 t2, (0 <= t1 < 4)%Z -> (0 <= t2 < 4)%Z -> t1 <> t2 -> separated (W t1) (W t2)) /\
+    (29 # 50) * (get_area QInst lp / 2) <
+      get_area QInst (W 0%Z) / 2 + get_area QInst (W 1%Z) / 2 + get_area QInst (W 2%Z) / 2 + get_area QInst (W 3%Z) / 2.
+Proof. exact children_cover_q. Qed.
+Print Assumptions C12_children_cover_q.
+
+Theorem C12_children_cover_half_q : forall (n : nat) (q o s : Z), (0 <= q <= 4)%Z ->
+  (1 <= n <= 28)%nat -> (0 <= o < 6)%Z -> (0 <= s < 4 ^ Z.of_nat n)%Z ->
+  exists (lp : list qp) (lc W : Z -> list qp),
+    get_pentagon_vertices QInst (Z.of_nat n) q (s_to_anchor s n o) = Some lp /\
+    (forall t, (0 <= t < 4)%Z ->
+       get_pentagon_vertices QInst (Z.of_nat (S n)) q (s_to_anchor (4 * s + t) (S n) o) = Some (lc t) /\
+       poly_in lp (W t) /\ poly_in (lc t) (W t) /\ convex_pos (W t)) /\
+    (forall t1 t2, (0 <= t1 < 4)%Z -> (0 <= t2 < 4)%Z -> t1 <> t2 -> separated (W t1) (W t2)) /\
+    (get_area QInst lp / 2) / 2 <
+      get_area QInst (W 0%Z) / 2 + get_area QInst (W 1%Z) / 2 + get_area QInst (W 2%Z) / 2 + get_area QInst (W 3%Z) / 2.
+Proof. exact children_cover_half_q. Qed.
+Print Assumptions C12_children_cover_half_q.
+
+Theorem C12_descendants_bounded_q : forall (n m : nat) (q o s u : Z), (0 <= q <= 4)%Z ->
+  (1 <= n)%nat -> (n + m <= 29)%nat -> (0 <= o < 6)%Z ->
+  (0 <= s < 4 ^ Z.of_nat n)%Z -> (0 <= u < 4 ^ Z.of_nat m)%Z ->
+  exists lp ld,
+    get_pentagon_vertices QInst (Z.of_nat n) q (s_to_anchor s n o) = Some lp /\
+    get_pentagon_vertices QInst (Z.of_nat (n + m)) q (s_to_anchor (s * 4 ^ Z.of_nat m + u) (n + m) o) = Some ld /\
+    dist2 (get_center QInst ld) (get_center QInst lp) <= (2 * R0 / pw n) * (2 * R0 / pw n) /\
+    100 * dist2 (get_center QInst ld) (get_center QInst lp) <= 256 * (get_area QInst lp / 2).
+Proof. exact descendants_bounded_q. Qed.
+Print Assumptions C12_descendants_bounded_q.
+
+Theorem C12_face_to_quintant_q : forall q : Z, (0 <= q <= 4)%Z ->
+  exists lf lq w, get_face_vertices QInst = Some lf /\ get_quintant_vertices QInst q = Some lq /\
+    25 * dist2 (get_center QInst lq) (get_center QInst lf) <= 16 * (get_area QInst lf / 2) /\
+    Forall (fun c => 0 < c) (crosses QInst lf w) /\ Forall (fun c => 0 < c) (crosses QInst lq w).
+Proof. exact face_to_quintant_q. Qed.
+Print Assumptions C12_face_to_quintant_q.
+
+Theorem C12_quintant_to_depth1_q : forall (q o s : Z), (0 <= q <= 4)%Z -> (0 <= o < 6)%Z -> (0 <= s < 4)%Z ->
+  exists lq lc w, get_quintant_vertices QInst q = Some lq /\
+    get_pentagon_vertices QInst 1 q (s_to_anchor s 1 o) = Some lc /\
+    25 * dist2 (get_center QInst lc) (get_center QInst lq) <= 16 * (get_area QInst lq / 2) /\
+    Forall (fun c => 0 < c) (crosses QInst lq w) /\ Forall (fun c => 0 < c) (crosses QInst lc w).
+Proof. exact quintant_to_depth1_q. Qed.
+Print Assumptions C12_quintant_to_depth1_q.
+
+Theorem C12_quintant_to_depth1_overlap_q : forall (q o s : Z), (0 <= q <= 4)%Z -> (0 <= o < 6)%Z -> (0 <= s < 4)%Z ->
+  exists lq lc w, get_quintant_vertices QInst q = Some lq /\
+    get_pentagon_vertices QInst 1 q (s_to_anchor s 1 o) = Some lc /\
+    Forall (fun c => 0 < c) (crosses QInst lq w) /\ Forall (fun c => 0 < c) (crosses QInst lc w) /\
+    contains_point QInst lq w = Some true /\ contains_point QInst lc w = Some true.
+Proof. exact quintant_to_depth1_overlap_q. Qed.
+Print Assumptions C12_quintant_to_depth1_overlap_q.
+
+Theorem C12_quintant_children_cover_q : forall (q o : Z), (0 <= q <= 4)%Z -> (0 <= o < 6)%Z ->
+  exists (lq : list qp) (lc W : Z -> list qp),
+    get_quintant_vertices QInst q = Some lq /\
+    (forall s, (0 <= s < 4)%Z ->
+       get_pentagon_vertices QInst 1 q (s_to_anchor s 1 o) = Some (lc s) /\
+       poly_in lq (W s) /\ poly_in (lc s) (W s) /\ convex_pos (W s)) /\
+    (forall s1 s2, (0 <= s1 < 4)%Z -> (0 <= s2 < 4)%Z -> s1 <> s2 -> separated (W s1) (W s2)) /\
+    (79 # 100) * (get_area QInst lq / 2) <
+      get_area QInst (W 0%Z) / 2 + get_area QInst (W 1%Z) / 2 + get_area QInst (W 2%Z) / 2 + get_area QInst (W 3%Z) / 2.
+Proof. exact quintant_children_cover_q. Qed.
+Print Assumptions C12_quintant_children_cover_q.
+
+Theorem C12_face_quintant_cover_q : forall q : Z, (0 <= q <= 4)%Z ->
+  exists (lf lq W : list qp),
+    get_face_vertices QInst = Some lf /\ get_quintant_vertices QInst q = Some lq /\
+    poly_in lf W /\ poly_in lq W /\ convex_pos W /\
+    (1999 # 10000) * (get_area QInst lf / 2) < get_area QInst W / 2 /\
+    Qabs (get_area QInst lq / 2 - (get_area QInst lf / 2) / 5) <= eps15 * ((get_area QInst lf / 2) / 5).
+Proof. exact face_quintant_cover_q. Qed.
+Print Assumptions C12_face_quintant_cover_q.
